@@ -6,6 +6,7 @@ import Pms.Props.C13
 #print axioms Pms.Cond.C13_ones_is_total
 #print axioms Pms.Cond.C13_vector_is_sum_of_components
 #print axioms Pms.Cond.C13_norm_variant
+#print axioms Pms.Cond.C13_tensor_symmetric
 #print axioms Pms.Cond.C13_gr_bins
 #print axioms Pms.Cond.C13_sq_dispatch
 #print axioms Pms.Cond.C13_sq_def
